@@ -629,6 +629,11 @@ func (o *Own) analyzeCall(f *ssa.Function, site ssa.CallInstruction) bool {
 			if o.addMut(f, o.roots(f, call.Args[0], modeAlias), site.Pos()) {
 				changed = true
 			}
+		case "append":
+			// append writes into the spare capacity of its first argument's backing array
+			if o.addMut(f, o.roots(f, call.Args[0], modeAlias), site.Pos()) {
+				changed = true
+			}
 		}
 		return changed
 	}
